@@ -20,6 +20,7 @@ variable {α : Type} [Transc α]
 def Marg.d2xdz2 : Marg α → α → α
   | .normal _ _, _ => zero
   | .lognormal _ s, x => s * s * x
+  | .general _ _ _ d2, x => d2 x
 
 /-- absolute value through the order test of the scalar class -/
 def absv (v : α) : α := if Transc.ltb v zero then -v else v
